@@ -508,3 +508,56 @@ func IsNamed(t types.Type, pkgpath, name string) bool {
 	o := n.Obj()
 	return o.Name() == name && o.Pkg() != nil && o.Pkg().Path() == Full(pkgpath)
 }
+
+// CanonPath is Path with whole-value copies of locals looked through: a local that is assigned exactly once, from
+// another local (or a value) read in one piece, names the same value as its source.  For read-only comparisons
+// ("is this the item whose link was compared?"), not for places that are written.
+func CanonPath(v ssa.Value) string {
+	v = Strip(v)
+	switch x := v.(type) {
+	case *ssa.Alloc:
+		cur := x
+		for i := 0; i < 6; i++ {
+			var stores []*ssa.Store
+			for _, r := range *cur.Referrers() {
+				if st, ok := r.(*ssa.Store); ok && st.Addr == ssa.Value(cur) {
+					stores = append(stores, st)
+				}
+			}
+			if len(stores) != 1 {
+				break
+			}
+			src := Strip(stores[0].Val)
+			if u, ok := src.(*ssa.UnOp); ok && u.Op == token.MUL {
+				if al, ok := u.X.(*ssa.Alloc); ok {
+					cur = al
+					continue
+				}
+				return "*(" + CanonPath(u.X) + ")"
+			}
+			return CanonPath(src)
+		}
+		return "alloc:" + cur.Name()
+	case *ssa.UnOp:
+		if x.Op == token.MUL {
+			if al, ok := x.X.(*ssa.Alloc); ok {
+				// load of a (possibly copied) local
+				p := CanonPath(al)
+				if strings.HasPrefix(p, "alloc:") {
+					return "*(" + p + ")"
+				}
+				return p
+			}
+			return "*(" + CanonPath(x.X) + ")"
+		}
+	case *ssa.FieldAddr:
+		if f := FieldOf(x); f != nil {
+			return CanonPath(x.X) + ".&" + f.Name()
+		}
+	case *ssa.Field:
+		if f := FieldOf(x); f != nil {
+			return CanonPath(x.X) + "." + f.Name()
+		}
+	}
+	return Path(v)
+}
